@@ -16,6 +16,10 @@ INFO = {
  "S-C14-1": ("C14", "estimate_minor accumulates candidate variants into gene.random_mutations in place", "two minor-stage calls on one Gene object, or comparing the catalogue with a fresh load", "caught as written"),
  "S-C15-1": ("C15", "major._filter_alleles applies the first threshold on the unfiltered coverage", "a site with exactly one qualifying reference read plus low-quality reads", "missed at first; caught after the lone-reference-read deviation was added to C15"),
  "S-C16-1": ("C16", "VCF deletion op built from the record's REF instead of the RefSeq-derived reference", "a deletion record whose REF differs from the reference in a deleted base", "missed at first; caught after the 'delref' encoding was added to C16"),
+ "S-C04-2": ("C04", "Gene.has_coverage memoized in a module-level dict keyed by (allele name, position) without the gene", "two Gene objects in one process sharing an allele name and coordinates but differing in structure", "missed by C04 (one gene per state) and by C14 at first; caught by C14 after a second gene with swapped fusion break points is held in the history context and its members are part of the operation alphabet"),
+ "S-C10-2": ("C10", "solve_minor_model hoists `solution = []` out of the enumeration loop: all refinements of one major solution share one allele list", "max_minor_solutions >= 2 and a second optimal refinement", "caught as written (chain consistency on recorded real samples with max_minor_solutions=3)"),
+ "S-C13-2": ("C13", "Gene._init_regions fills the position->region table through a helper with a mutable default argument: all Gene objects share one table", "two builds loaded in one process whose loci overlap numerically, structure with regions of different copy number", "missed at first (the overlapping stretch of the generated builds was symmetric); caught after the hg38 offsets were moved so that the loci overlap by 400 bases"),
+ "S-C14-2": ("C14", "Profile.load caches the parsed profile YAML per path and the custom-neutral-region branch edits the cached dict", "same process, 'illumina' profile, a call with a custom neutral region followed by one without", "missed at first; caught after histories of profile/sample loads and genotype() calls through the shipped profile with different neutral regions were added to C14"),
  "S-C08-1": ("C08", "gene.get_refseq reads the strand-adjusted position slot instead of the written one", "a - strand gene and a variant whose anchor moves under the strand flip (insertion, multi-base deletion, MNV, del-ins)", "caught as written"),
  "S-C17-1": ("C17", "dump writer keeps only fragments linking more than two database positions (len > 2)", "phasing decisive and the linking reads cover exactly two database sites", "caught as written (the phase-decisive paired samples)"),
  "S-C18-1": ("C18", "Profile.update skips falsy values (if v and ...) instead of only None", "a native falsy value (False, 0, 0.0, '') for a parameter, incl. options in a profile file and the write->load round trip", "caught as written"),
